@@ -155,10 +155,14 @@ def pyvc_violations(res):
             for t2, c2, v2 in items[:6]:
                 if c2.replay is None:
                     continue
-                m = model_of(v2.obl, instantiate=bool(t2.instantiate))
+                ex = rep.execs[(t2.fullname, c2.name)]
+                m = None
+                if getattr(c2, 'small', None) is not None:
+                    m = model_of(v2.obl, instantiate=bool(t2.instantiate), extra=c2.small(ex))
+                if m is None:
+                    m = model_of(v2.obl, instantiate=bool(t2.instantiate))
                 if m is None:
                     continue
-                ex = rep.execs[(t2.fullname, c2.name)]
                 r = c2.replay(m, v2.obl, ex)
                 if r is None:
                     continue
